@@ -56,6 +56,9 @@ var c07ReqKinds = []Req{
 	preflightReq("https://common.example", "PUT", []string{"x-one"}, false),                                  // 9 preflight succeeding for configuration 1 only
 }
 
+// operations run sequentially after every injected mini-history
+var c07PostOps = []c07Op{{Kind: "req", Arg: 8}, {Kind: "req", Arg: 7}, {Kind: "req", Arg: 4}, {Kind: "req", Arg: 9}, {Kind: "config"}, {Kind: "req", Arg: 1}}
+
 type c07State struct {
 	Cfg   int
 	Debug bool
@@ -424,6 +427,15 @@ func c07Inject(r *Run, l *Local, g *c07Golden, model porcupine.Model, init c07St
 	mu.Lock()
 	recs = append(recs, c07Rec{Client: 0, Op: outer, Call: call, Ret: ret, Out: out})
 	mu.Unlock()
+	// afterwards, sequentially: what the injection left behind must be the state the model ends in
+	// (a request that publishes stale data *after* the injected operations only shows in later answers)
+	for _, op := range c07PostOps {
+		c := c07Clock.Add(1)
+		o := c07Exec(m, op, nil)
+		rt := c07Clock.Add(1)
+		recs = append(recs, c07Rec{Client: 2, Op: op, Call: c, Ret: rt, Out: o})
+	}
+	l.evals += int64(len(c07PostOps))
 	l.evals++
 	st.histories++
 	if blocked {
